@@ -296,7 +296,7 @@ func hintsFirst(impl []any) any {
 	if len(bad) == 0 {
 		return impl
 	}
-	return map[string]any{"suspect_queries": bad, "all_results": impl}
+	return map[string]any{"_suspect_queries": bad, "all_results": impl}
 }
 
 // ---------------------------------------------------------------- providers
